@@ -84,6 +84,21 @@ CHECKS = {
             "The complete matrix (103 550 cells: 9 clause families x 73 target bindings x blocks x 25 field names x 9 spellings, each bare and inside MUTATE, as text and as tree), 1 628 enumerated rule cases, generated multi-clause plans with handle graphs, generated ASSERT statements compared with the harness's own desugaring, and 20 kinds of JSON mutations of accepted trees: nothing parse_kip / parse_kml / parse_meta / validate_command accept may assign a protected or immutable-payload field, mutate structure of an immutable kind, use BELIEF in a mutation or export selection, leave a handle unbound or bound twice, create from a bare id or select by a mutable field; text and tree routes agree.",
             "Static half only: the target kind is what the statement's own WHERE binds syntactically; schema-defined immutability and direct :id targets need the engine (the dynamic half planned in DESIGN is not registered). Two genuine defects found by this check were repaired (known_findings.json: fixed).",
             "§5 C16"),
+    "C17": ("vf-nexus", "exploration",
+            "property-based histories plus a differential twin world: generated KML statements go through the real parser and session on two nexus instances, one of which never sees a refused statement or a dry run; raw dumps of the eight collections and a battery of about 80 KQL / META reads around every refused or dry-run statement; a fresh world replaying only the committed statements confirms unexplained refusals; fixed regressions for the repaired defects",
+            "Quick: 560 histories of 4-20 generated statements of 1-6 clauses (18 clause kinds, 23 fault kinds placed first / middle / last, 2-5 clauses aimed at one element): about 9.6k executions, about 990 refusals at commit time, 2.6k refusals after something had been staged, 1.1k multi-clause commits on one element, dry runs and PREVIEW twins on about 40 % of statements; thorough: 11 200 histories. A refused / dry-run statement must leave the raw rows, every battery read and the twin's future identical; a committed one advances each changed element's version by exactly one with exactly one version and change record, and changes nothing it does not change.",
+            "Statements are serialised through one system session: reader / writer interleavings of the nexus lock and a crash during commit are not explored. SEARCH scores are not compared; authorization refusals and PURGE are not generated. Three genuine defects found by this check were repaired (known_findings.json: fixed). 12 of 14 hand-made mutants are caught in the quick tier, the other two are equivalent with respect to the property.",
+            "§5 C17"),
+    "C18": ("vf-nexus", "exploration",
+            "record-live / replay-AS-OF metamorphic battery over generated committed histories (proptest), version-log append-only / payload-immutability check, purge-difference check",
+            "Quick: 80 histories of 6-16 committed statements (25 statement families incl. two schema activations); a 57-read battery (25 pattern families incl. BELIEF, paths, aggregates, schema-dependent reads) is recorded after every write and replayed AS OF SEQ after every later write and AS OF TX / TIME / snapshot token at the end (about 380k replays, about 36 % differing from the present); 400 payload histories (no version row rewritten or lost without PURGE, assertion / evidence payloads immutable); 120 purge cases (only the purged rows differ); 12 regression inputs. Thorough: 1 600 / 8 000 / 2 400 (8 M replays).",
+            "Every replay must equal its live recording in full (rows, order, field values incl. _system, beliefs, schema_environment_version); only the read's own coordinates are removed; ledger id lists inside a projected belief are compared as sets (the engine lists them in numeric id order live and in lexicographic order historically - recorded as an observation, not a violation, because the property speaks of what was current, not of list order inside an explanation). SEARCH .. AS OF and nested tuples are refused by the engine and not covered; PURGE only of unreferenced elements. One genuine defect found and repaired (explicit state matcher on historical reads).",
+            "§5 C18"),
+    "C19": ("vf-nexus", "exploration",
+            "two-world non-interference (same script; the unreadable elements are never created in the second world; reference-closed; masked content varied), an independent reference decision function written from the documented rule order, twin-principal immediate-effect check, delegate-within-delegator view relation, host-side byte comparison of the control plane around every session command",
+            "Generated governance configurations (2-4 principals, groups, grants scoped by kind / type / classification / element with ceilings, field masks and conditions, delegation chains incl. amplification attempts, versioned allow / deny policies, suspend / revoke / membership events) x 10-30-element populations x a battery of about 90 KQL / META commands. Quick: 2 128 cases (about 1 575 non-trivial): 64k two-world comparisons, 27k reference decisions, 34k requests issued right after a control-plane event (all 10 event kinds), 1.1k delegate-vs-delegator view checks, 7k session commands (40 shapes) each framed by a dump of the gov_* collections and every element's governance block. Thorough: 42 408 cases.",
+            "Eight listed known findings (K1 reference disclosure, K2 SEARCH scores, K3 SEARCH over-fetch window, K4 AS OF admits by historical classification, K5 HISTORY ELEMENT of a hidden id, K6 SEARCH over masked fields, K8 PREVIEW KML / mutation existence leak, K9 a deny of the delegator does not reach delegates) are reproduced by fixed cases and excluded by construction or attributed by signature (counted) in the generated sub-checks. Not covered: live wall-clock expiry (windows are years away), approvals / break-glass, max_results, BELIEF over masked confidence, cyclic delegations, named delegation chains. 11 hand-made mutants all caught in the quick tier.",
+            "§5 C19"),
     "C20": ("vf-nexus", "exploration",
             "differential against a harness reference (documented eligibility stages, graph connected components over shared actor / evidence, score = 1 - prod(1 - strongest confidence per group), accept/material table), order-permutation invariance, metamorphic laws, bounded-exhaustive enumeration of the grouping alphabet, through real KML/KQL",
             "Bounded-exhaustive on the grouping alphabet (3 actors x evidence subsets of size <= 2 = 21 assertion types): all multisets of <= 3 assertions in all orders (quick) / <= 5 (thorough), plus all 24 orders of every 3-way-bridge 4-multiset; randomized beyond (<= 8 assertions, rivals of a functional predicate, stances, confidences incl. unstated, modes, validity windows, retract / supersede, evaluation times, policy overrides). Status, group counts, id sets, exclusion reasons and scores (1e-9) must equal the reference, be independent of recording order, never report rejected without opposition, never gain groups or score from repetition, never lose score when a group's strongest confidence rises, and name the policy.",
